@@ -283,6 +283,88 @@ def invalid_utf8_monitor(ctx, exe):
     ctx.extra["invalid_utf8_roundtrips_changed_by_encoding_json"] = "%d of %d" % (changed, len(lines))
 
 
+PEER_ARGS = ["-test.run", "^TestVerifPeerDriver$", "-verif.peer"]
+
+
+def peer_prop(line, impl, model):
+    from checks import c08
+    if impl.startswith("!panic") or impl == "!died":
+        return "remoteIPFromSDP panicked on an SDP text a client can send"
+    if impl.startswith("x"):
+        b = bytes.fromhex(impl[1:])
+        if len(b) not in (4, 16):
+            return "remoteIPFromSDP returned a %d-byte address" % len(b)
+        if c08.bad_bytes(b):
+            return "remoteIPFromSDP returned %s, which is a local / unspecified / loopback address" % c08.show_ip(b)
+    elif impl != "nil":
+        return "unexpected driver answer " + impl[:80]
+    return None
+
+
+def peer_key(line, impl, model):
+    return "peer-address-panic" if impl.startswith("!panic") else "peer-address"
+
+
+def peer_texts(ctx):
+    """SDP texts for remoteIPFromSDP: the C08 grammar with the c= lines varied, malformed and non-SDP texts"""
+    from checks import c08
+    rng = ctx.rng
+    thorough = ctx.tier == "thorough"
+    stats = {}
+    out = []
+
+    def vary_conn(t):
+        lines = t.split("\r\n")
+        for i, l in enumerate(lines):
+            if l.startswith("c=") and rng.random() < 0.8:
+                r = rng.random()
+                if r < 0.45:
+                    a = rng.choice(c08.V4_POOL)
+                    lines[i] = "c=IN IP4 " + a + rng.choice(["", "", "/127", "/127/3"])
+                elif r < 0.8:
+                    lines[i] = "c=IN IP6 " + rng.choice(c08.V6_POOL) + rng.choice(["", "", "/3"])
+                elif r < 0.9:
+                    lines[i] = "c=IN IP4 " + rng.choice(c08.spellings(rng, rng.choice(c08.V4_POOL)))
+                else:
+                    lines[i] = rng.choice(["c=IN IP4 ", "c=IN IP4 999.1.1.1", "c=IN IP6 fd00:::1", "c=IN IP4 8.8.8.8 ", "c=IN IP4 1.2.3.4x", "c=IN IP7 1.2.3.4",
+                                           "c=IN IP6 2001:db8::1 x", "c=IN IP4 10.0.0.1:5", "c=IN IP4 0x8.8.8.8"])
+        return "\r\n".join(lines)
+
+    for i in range(500 if not thorough else 6000):
+        t = c08.gen_sdp(rng, stats, malformed=(i % 4 == 0))
+        if rng.random() < 0.5:   # no usable candidate: the c= fallback decides
+            t = "\r\n".join(l for l in t.split("\r\n") if not l.startswith("a=candidate:") or rng.random() < 0.15)
+        out.append(("grammar", vary_conn(t).encode()))
+    base = c08.gen_sdp(rng, stats).encode()
+    for _ in range(250 if not thorough else 3000):
+        if rng.random() < 0.1:
+            base = vary_conn(c08.gen_sdp(rng, stats, malformed=rng.random() < 0.3)).encode()
+        out.append(("non-sdp/mutated", c08.non_sdp(rng, base)))
+    for t in [b"c=IN IP4 8.8.8.8\r\n", b"c=IN IP4 8.8.8.8", b"x\nc=IN IP6 2001:db8::1\n", b"c=IN IP4 10.0.0.1\r\nc=IN IP4 8.8.8.8\r\n",
+              b"v=0\r\no=- 1 2 IN IP4 127.0.0.1\r\ns=-\r\nc=IN IP4 203.0.113.9\r\nt=0 0\r\n",
+              b"v=0\r\no=- 1 2 IN IP4 127.0.0.1\r\ns=-\r\nc=IN IP4 192.168.0.9\r\nt=0 0\r\nm=audio 9 RTP/AVP 0\r\nc=IN IP6 2001:db8::7\r\n"]:
+        out.append(("conn-line-only", t))
+    return out
+
+
+def peer_part(ctx):
+    """remoteIPFromSDP (proxy/lib, unexported): in-package driver through the compiled test binary"""
+    exe = vlib.go_test_build("./proxy/lib", name="proxy_lib_sessdesc.test")
+    texts = peer_texts(ctx)
+    pl = ["sdpstrip peerparse %s" % hx(t) for _, t in texts]
+    rc, res, err = vlib.run_impl(exe, pl, args=PEER_ARGS)
+    if rc != 0 or len(res) != len(pl):
+        raise RuntimeError("peerparse phase failed: rc=%s %s" % (rc, err[-400:]))
+    lines, kinds = [], []
+    for (k, t), r in zip(texts, res):
+        st, caps = r.split(" ")
+        lines.append("sdpstrip peer %s %s %s" % (st, caps, hx(t)))
+        kinds.append("peer:" + k + (":unparsable" if st == "U" else ""))
+    model, impl = ctx.correspond(exe, lines, kinds, label="peer-address", prop=peer_prop, key_of=peer_key, impl_args=PEER_ARGS, crosscheck=20)
+    ctx.extra["peer_address_results"] = {"nil": sum(1 for r in impl if r == "nil"), "address": sum(1 for r in impl if r.startswith("x")),
+                                         "from_candidate_or_conn_line": "both paths generated (candidates removed from half of the grammar texts)"}
+
+
 def run(ctx):
     exe = vlib.go_build("./zz_verif/sessdesc")
     ctx.trusted += ["encoding/json text<->value (the driver reports the value Go's decoder sees, duplicates and order kept; "
@@ -290,10 +372,12 @@ def run(ctx):
                     "round-trip at text level assumes json.Unmarshal(json.Marshal(v)) = v for valid UTF-8 strings (Section hypothesis in C13_roundtrip_text)"]
     ctx.assumptions += ["model = coq/Model/SessDesc.v (hand written) of util.Serialize/DeserializeSessionDescription",
                         "SDP strings that are not valid UTF-8 are changed by encoding/json (U+FFFD); the round-trip claim is for valid UTF-8 text",
-                        "remoteIPFromSDP (proxy/lib): see peer-address part"]
+                        "remoteIPFromSDP (proxy/lib) is modelled over the parsed SDP (coq/Model/SdpStrip.v remote_ip): pion/sdp, pion/ice, net.ParseIP "
+                        "and the two c= regular expressions are library boundary (driver reports what they yield); their panic freedom is observed, not proved"]
     lines, kinds = gen(ctx, exe)
     ctx.correspond(exe, lines, kinds, label="sessdesc", prop=prop, key_of=key_of)
     invalid_utf8_monitor(ctx, exe)
+    peer_part(ctx)
 
 
 def replay(ctx, doc):
@@ -302,6 +386,15 @@ def replay(ctx, doc):
     for v in doc.get("violations", []):
         case = v["replay"].get("case")
         if not case:
+            continue
+        if case.startswith("sdpstrip peer "):
+            pexe = vlib.go_test_build("./proxy/lib", name="proxy_lib_sessdesc.test")
+            m = vlib.run_model([case])[0]
+            rc, r, err = vlib.run_impl(pexe, [case], args=PEER_ARGS)
+            r = r[0] if r else "!died"
+            p = peer_prop(case, r, m)
+            print("case: %s\n model: %s\n impl:  %s\n property: %s" % (case[:300], m, r, p or "holds"))
+            bad += 1 if p else 0
             continue
         m = vlib.run_model([case])[0]
         m0 = vlib.run_model([case.replace(" deser ", " deser0 ", 1)])[0] if " deser " in case else None
